@@ -61,7 +61,24 @@ def run(chk, replay=None):
                 a = q['headers']['Authorization']
                 if not a.startswith('Digest ') or atlaslib.PRIV in a:
                     chk.violate('Authorization header is not a digest response', dict(case, header=a[:120]), tags=['authheader'])
+    # invocations that never reach the network but make the CLI talk: usage / help / flag errors with the key in flags or environment
+    talk = [['--atlasLogStartDate', 'not-a-number'], ['--noSuchOption'], ['--help'], ['-h'], ['--atlasLogStartDate', '5'], ['--redactFieldsRegexp', '(unclosed'], ['extra-file-argument.log']]
+    for extra in talk:
+        for supply in ('flags', 'env', 'mixed'):
+            world = dict({'cluster_st': 200, 'cluster_body': cluster_body}, **behaviours['digest_ok'])
+            r = atlaslib.run_cli(world, key_via=supply, flags=['-n'], extra_args=extra)
+            chk.count(); chk.nontriv(('talk', tuple(extra), supply)); chk.dist('talk_invocations')
+            case = {'extra_args': extra, 'key_supplied_by': supply, 'rc': r['rc']}
+            artefacts = {'stdout': r['stdout'], 'stderr': r['stderr']}
+            for k, v in r['outs'].items(): artefacts['output:' + k] = v
+            for k, v in r['tmp'].items(): artefacts['temp:' + k] = v
+            for name, data in artefacts.items():
+                for f in secret_forms:
+                    # on the command line the key is the user's own input and may be echoed by nothing: usage text shows defaults, not values
+                    if f in data:
+                        chk.violate('the private key appears in an artefact', dict(case, artefact=name, form=f.decode('utf-8', 'replace')[:40], excerpt=data[max(0, data.find(f) - 80): data.find(f) + 60].decode('utf-8', 'replace')), tags=['privkey', name.split(':')[0], 'usage'])
     chk.streams.append({'stream': 'CLI behind the proxy: server behaviours x key supply', 'cases': len(behaviours) * 3})
+    chk.streams.append({'stream': 'usage / help / flag-error invocations x key supply', 'cases': len(talk) * 3})
     chk.sample({'behaviour': 'host_401_echo', 'key_supplied_by': 'env', 'searched_forms': sorted(f.decode('utf-8', 'replace')[:30] for f in secret_forms)})
     chk.assumptions += ["that the digest library only hashes the password into the response is read, not proved: the model is of the repository's own data flow (atoms)",
                         "the digest response is derived from the key by MD5; it is the one sanctioned use"]
